@@ -15,6 +15,30 @@ CHECKS = {
         technique="symbolic execution of bisturi.field.Int (+ generated code) with CrossHair/z3, positional-formula oracle"),
 }
 
+CHECKS["C04"] = dict(
+    text="Bounded symbolic model checking, differential: for every catalogue declaration (all integer widths incl. 3,5,6,7,9,12,16 "
+         "as last field, Bits groups of 16..48 bits, Data, sequences, optionals, references) and EVERY total input length 0..N "
+         "(hence every truncation point of every valid encoding within the bound) z3 decides that acceptance by bisturi implies "
+         "acceptance by a strict reference decoder with identical values, and that silent=True returns None exactly when unpack raises.",
+    design="4/C04", technique="symbolic execution of Packet.unpack (generic + generated code) vs strict reference interpreter, CrossHair/z3")
+CHECKS["C06"] = dict(
+    text="Bounded symbolic model checking, differential: Data in every sizing mode (constant, field, expression, callable, bytes "
+         "marker 1-3 bytes incl. self-overlapping, regex, EOS) x include_delimiter x search_buffer_length {unset,0,1,2,4}: for all "
+         "inputs up to the per-declaration length bound and symbolic start offset, accept/reject, value, and end offset equal the "
+         "reference (exact size / first occurrence inside the window).",
+    design="4/C06", technique="symbolic execution of bisturi.field.Data unpack strategies vs reference interpreter, CrossHair/z3")
+CHECKS["C07"] = dict(
+    text="Bounded symbolic model checking of Bits._compile/unpack/pack: all 128 compositions of 8 bits (generic+generated), "
+         "compositions of 16 bits (quick: <=3 parts + sample; thorough: all 32768), structured families for 24..128 bits; unpack "
+         "over all byte patterns, pack over UNBOUNDED per-field ints; partition identity oracle; modification histories "
+         "(pack, change one field, pack); non-multiple-of-8 runs rejected at class creation.",
+    design="4/C07", technique="symbolic execution with exact bit-slice algebra for &,|,<<,>> (vlib/bitrep.py), CrossHair/z3")
+CHECKS["C08"] = dict(
+    text="Bounded symbolic model checking, differential: sequences (count as constant/field/expression/callable, negative counts, "
+         "until over list and offsets, when), optionals, Ref to packets and to run-time selected fields/packets, nesting depth <=3: "
+         "accept/reject, values, list lengths and end offset equal the reference for all inputs within the length bounds.",
+    design="4/C08", technique="symbolic execution of Sequence/Optional/Ref unpack vs reference interpreter, CrossHair/z3")
+
 NA_REASON = "check not built yet in this round (planned: DESIGN.md section 4); no claim is made"
 
 
